@@ -29,6 +29,9 @@ if TYPE_CHECKING:
 __all__ = ('NamespaceMapper', 'NamespaceResourcesMap', 'NamespaceView')
 
 
+from xmlschema import _verif_trace
+
+
 class NamespaceMapperContext(NamedTuple):
     obj: Union[ElementType, Any]
     level: int
@@ -187,6 +190,19 @@ class NamespaceMapper(MutableMapping[str, str]):
         Set the right context for the XML data and its level, updating the namespace
         map if necessary. Returns the xmlns declarations of the provided XML data.
         """
+        if _verif_trace.ENABLED:
+            try:
+                return self._set_xmlns_context(obj, level)
+            finally:
+                _verif_trace.emit(
+                    'ns.setctx', mapper=id(self), obj=id(obj), level=level,
+                    mode=self.xmlns_processing,
+                    namespaces=dict(self.namespaces), reverse=dict(self._reverse),
+                    depth=len(self._xmlns_contexts),
+                )
+        return self._set_xmlns_context(obj, level)
+
+    def _set_xmlns_context(self, obj: Any, level: int) -> XmlnsType:
         xmlns = None
 
         if self._xmlns_contexts:
